@@ -138,6 +138,7 @@ func TestFileReadAt(tb testing.TB, o FSOptions) {
 			expectErr:   io.EOF,
 		},
 	} {
+		tc := tc // the subtests run in parallel after the loop has finished: without a copy they all ran the last case
 		o.tbRun(tb, tc.description, func(tb testing.TB) {
 			tbParallel(tb)
 			file, err := fs.Open("foo")
